@@ -141,6 +141,46 @@ theorem subst_op (env : Env) (n : Str) (o : Op) (arg : List Seg) (hn : validName
   | err e => rfl
   | panic p => rfl
 
+/-- the rows of the property statement, spelled out: `d` is the interpolated argument -/
+theorem subst_op_table (env : Env) (n : Str) (arg : List Seg) (d : Str)
+    (hn : validName n = true) (harg : wfL true arg = true) (hd : evalOut env arg = .ok d) :
+    -- `${n:-arg}` / `${n-arg}`
+    ((env n = none ∨ env n = some []) → subst env (Seg.op n .colonDash arg).render = .ok d) ∧
+    (∀ v, env n = some v → v ≠ [] → subst env (Seg.op n .colonDash arg).render = .ok v) ∧
+    (env n = none → subst env (Seg.op n .dash arg).render = .ok d) ∧
+    (∀ v, env n = some v → subst env (Seg.op n .dash arg).render = .ok v) ∧
+    -- `${n:+arg}` / `${n+arg}`
+    (∀ v, env n = some v → v ≠ [] → subst env (Seg.op n .colonPlus arg).render = .ok d) ∧
+    ((env n = none ∨ env n = some []) → subst env (Seg.op n .colonPlus arg).render = .ok []) ∧
+    (∀ v, env n = some v → subst env (Seg.op n .plus arg).render = .ok d) ∧
+    (env n = none → subst env (Seg.op n .plus arg).render = .ok []) ∧
+    -- `${n:?arg}` / `${n?arg}`
+    ((env n = none ∨ env n = some []) → subst env (Seg.op n .colonQ arg).render = .err (.required n d)) ∧
+    (∀ v, env n = some v → v ≠ [] → subst env (Seg.op n .colonQ arg).render = .ok v) ∧
+    (env n = none → subst env (Seg.op n .q arg).render = .err (.required n d)) ∧
+    (∀ v, env n = some v → subst env (Seg.op n .q arg).render = .ok v) := by
+  have h := fun o => subst_op env n o arg hn harg
+  simp only [hd] at h
+  refine ⟨?_, ?_, ?_, ?_, ?_, ?_, ?_, ?_, ?_, ?_, ?_, ?_⟩
+  · rintro (h0 | h0) <;> rw [h, h0] <;> rfl
+  · intro v hv hne; rw [h, hv]; cases v with
+    | nil => exact absurd rfl hne
+    | cons c cs => rfl
+  · intro h0; rw [h, h0]; rfl
+  · intro v hv; rw [h, hv]; rfl
+  · intro v hv hne; rw [h, hv]; cases v with
+    | nil => exact absurd rfl hne
+    | cons c cs => rfl
+  · rintro (h0 | h0) <;> rw [h, h0] <;> rfl
+  · intro v hv; rw [h, hv]; rfl
+  · intro h0; rw [h, h0]; rfl
+  · rintro (h0 | h0) <;> rw [h, h0] <;> rfl
+  · intro v hv hne; rw [h, hv]; cases v with
+    | nil => exact absurd rfl hne
+    | cons c cs => rfl
+  · intro h0; rw [h, h0]; rfl
+  · intro v hv; rw [h, hv]; rfl
+
 /-- **Values are never expanded again**: a variable whose value is *any* text `v` — including text that
     contains `$`, `${…}` or `$$` — contributes exactly `v`, in any well-formed context -/
 theorem subst_value_verbatim (env : Env) (n v : Str) (braced : Bool) (pre post : List Seg)
